@@ -68,27 +68,62 @@ let kind_name = function
   | Ast.EAlreadySet -> "already-set" | Ast.EMissing -> "missing" | Ast.EMissingKind -> "missing-kind"
   | Ast.EOtherKind -> "other-kind" | Ast.ENotModule -> "not-module"
 
+(* the observation of one Modules.Parse / Modules.Read of a text on an empty module set *)
+let observe forest =
+  match Ast.parse_all_e YangSchema.schema forest with
+  | Ast.ROk nodes ->
+    let b = Buffer.create 256 in
+    Buffer.add_string b "ok";
+    L.iter (fun nd -> Buffer.add_char b ' '; dump b nd) nodes;
+    Buffer.contents b
+  | Ast.RErr (k, pos) ->
+    let p = (match pos with
+             | None -> "nopos"
+             | Some i -> (try Hashtbl.find positions (int_of_nat i) with Not_found -> "?")) in
+    "err " ^ p ^ " " ^ kind_name k
+  | Ast.RPanic -> "PANIC"
+  | Ast.RUnmodelled -> "unmodelled"
+
+let read_forest toks =
+  match toks with
+  | n :: rest -> Hashtbl.reset positions; read_list (ref 0) (int_of_string n) rest
+  | [] -> raise Bad_case
+
 let do_ast toks =
   match toks with
-  | _text :: n :: rest ->
+  | _text :: rest ->
     (try
-      Hashtbl.reset positions;
-      let forest, rest = read_list (ref 0) (int_of_string n) rest in
-      if rest <> [] then "bad-case" else
-      match Ast.parse_all_e YangSchema.schema forest with
-      | Ast.ROk nodes ->
-        let b = Buffer.create 256 in
-        Buffer.add_string b "ok";
-        L.iter (fun nd -> Buffer.add_char b ' '; dump b nd) nodes;
-        Buffer.contents b
-      | Ast.RErr (k, pos) ->
-        let p = (match pos with
-                 | None -> "nopos"
-                 | Some i -> (try Hashtbl.find positions (int_of_nat i) with Not_found -> "?")) in
-        "err " ^ p ^ " " ^ kind_name k
-      | Ast.RPanic -> "PANIC"
-      | Ast.RUnmodelled -> "unmodelled"
+      let forest, rest = read_forest rest in
+      if rest <> [] then "bad-case" else observe forest
     with Bad_case | Failure _ -> "bad-case")
   | _ -> "bad-case"
 
-let () = register "ast" do_ast
+(* astfile <hex text> <hex corrected text | -> <forest> [<corrected forest>]
+   Reading a file is parsing its text into the set (Modules.Read = findFile + Parse), and a rejected text
+   leaves the set as it was (Parse is all-or-nothing).  So: a rejected file is rejected the same way by
+   every further Read, and once the file is corrected the Read gives what the corrected text gives on the
+   still empty set.  For an accepted file the further Reads either report the duplicate or change nothing:
+   "same" (the check canonicalises the implementation's answer accordingly). *)
+let do_astfile toks =
+  match toks with
+  | _text :: fixed :: rest ->
+    (try
+      let forest, rest = read_forest rest in
+      let r1 = observe forest in
+      let is_err = Str_.length r1 >= 3 && Str_.sub r1 0 3 = "err" in
+      let later = if is_err then r1 else "same" in
+      let steps = [r1; later; later] in
+      let steps =
+        if fixed = "-" then (if rest <> [] then raise Bad_case else steps)
+        else begin
+          let forest2, rest2 = read_forest rest in
+          if rest2 <> [] then raise Bad_case;
+          let r4 = observe forest2 in
+          let err4 = Str_.length r4 >= 3 && Str_.sub r4 0 3 = "err" in
+          steps @ [if is_err then r4 else if err4 then "err" else "unsupported-case"]
+        end in
+      Str_.concat " | " steps
+    with Bad_case | Failure _ -> "bad-case")
+  | _ -> "bad-case"
+
+let () = register "ast" do_ast; register "astfile" do_astfile
